@@ -12,8 +12,8 @@
 
 extern "C" {
 // sanitizer defaults: a report ends the worker with a recognisable status
-__attribute__((used, visibility("default"))) const char *__asan_default_options() { return "exitcode=77:color=never:detect_leaks=0:abort_on_error=0:allocator_may_return_null=1:detect_stack_use_after_return=0:handle_segv=1"; }
-__attribute__((used, visibility("default"))) const char *__ubsan_default_options() { return "halt_on_error=1:exitcode=77:print_stacktrace=1:color=never"; }
+__attribute__((used, visibility("default"))) const char *__asan_default_options() { return "exitcode=77:color=never:halt_on_error=0:detect_leaks=0:abort_on_error=0:allocator_may_return_null=1:detect_stack_use_after_return=0:handle_segv=1"; }
+__attribute__((used, visibility("default"))) const char *__ubsan_default_options() { return "halt_on_error=0:exitcode=77:print_stacktrace=1:color=never"; }
 __attribute__((used, visibility("default"))) const char *__tsan_default_options() { return "exitcode=0:color=never:halt_on_error=0:report_signal_unsafe=0:suppress_equal_stacks=0:suppress_equal_addresses=0:history_size=4:second_deadlock_stack=1"; }
 }
 
